@@ -49,7 +49,13 @@ RULE = ("Every run is driven per INVOCATION of the real main(): the operator mod
         "against the crash-free run of the real script (incl.: each step reads the operator screen the never-interrupted execution "
         "gives it; no prospective invocation launches steps of two iterations); "
         "run-repaired (the same with the one-line repair applied to an in-memory copy of the script, model parameter "
-        "fixed=1); async (orders that violate data dependence: correspondence only, outside the property's quantifier); "
+        "fixed=1); one- and two-plate screens with batch sizes 1-4 (all single crash points); "
+        "torn (an entry [k, order, 1]: the interruption comes WHILE publication k-4 is under way; if that file is screen_metadata.json it is left holding the first half of its text - "
+        "every step of every configuration x every admissible order, plus combinations with ordinary crashes - against Orchestrate.script_session_t and judged like run; the operator reruns "
+        "after an exception that names nothing); torn-repaired (the same schedules with `except ValueError: return None` around json.load applied in memory, model parameter tfix=1: whatever else "
+        "goes wrong around a torn marker is reported on its own); "
+        "async (publication orders that data dependence alone would exclude - nextflow publishes asynchronously: every step with the marker published before advanced_screen.h5 and an interruption "
+        "between the two, plus random permutations; model comparison AND the property predicate: the statement does not restrict the order); "
         "examine (random trees with gaps, unsorted / two-digit indices, missing markers, empty iteration directories "
         "against examine_output_dir_to_determine_current_iteration); crash_free (closed-form ideal run against the real "
         "uninterrupted run: ONE invocation = n launches + one returning call / exactly batch-size launches, then main() returns); "
@@ -90,6 +96,28 @@ THEOREMS = {
     "C19_uninterrupted_retrospective_invocation": "never-interrupted retrospective invocation: n successful launches (the ideal commands) then one call that returns False; completed = crash_free",
     "C19_resume_refuted_empty_iter": "REFUTED for the examine of /repo today: batch size 2, crash between the two makedirs levels -> a completed step is deleted and launched again",
     "C19_resume_refuted_marker_early": "REFUTED without marker_last even with the repair: prospective mode, metadata published first (data dependence allows it) -> step without selection counts as complete",
+    "C19_retro_progress": "retrospective, from ANY tree a crash schedule leads to (c steps complete): after m further uninterrupted calls (marker-last orders) at least min(n, c + m - 1) steps are "
+                          "complete - each call completes the next step, the first may be spent on naming the incomplete directory - and the completed steps are still a prefix of the never-interrupted run",
+    "C19_retro_rerun_finishes": "so n - c + 1 uninterrupted calls after ANY crash history end in exactly the never-interrupted run (completed = crash_free)",
+    "C19_torn_model_conservative": "the model with torn (present but unreadable) markers run without torn markers and tearing entries IS the model all other theorems are about",
+    "C19_torn_examine_raises_iff": "on a tree with torn markers the script as it is raises (JSONDecodeError, no directory named, nothing touched) exactly when the first problem examine meets is a directory whose "
+                                   "marker is torn - where a missing marker would have been named as 'invalid structure'",
+    "C19_torn_raise_is_permanent": "a raising examine strands the script: every further call raises the same exception, changes nothing, names nothing",
+    "C19_resume_refuted_torn_marker": "REFUTED (script of /repo, marker last everywhere): retrospective, batch size 1, 3 plates, the run of step (1,0) interrupted WHILE the marker is being published -> "
+                                      "for every number of reruns: the same exception, no directory named, step (1,0) never completed",
+    "C19_torn_repaired_is_missing_marker": "with the repair (unreadable marker = no marker) examine on a torn tree IS the model's examine on its tree component: the torn directory is named like an incomplete one",
+    "C19_torn_repaired_never_raises": "with the repair examine never raises, whatever is torn",
+    "C19_resume_refuted_marker_before_advanced": "REFUTED without marker_last in RETROSPECTIVE mode: marker published before advanced_screen.h5, interruption between the two -> step (1,0) is started from the "
+                                                 "training screen of (0,0) instead of its advanced screen and selects plate 0 a second time",
+    "C19_marker_before_advanced_strands": "the same inside a batch (batch size 2, plate 1): no screen is found, TypeError that names nothing; for every number of reruns no further step is completed",
+    "C19_nf_outputs_are_what_the_script_globs": "read from /repo/nextflow/modules/*/main.nf on every run: every file kind of the model is published by the process the model attributes it to, the module's "
+                                                "output: pattern matches the file name its script: block writes, and the pattern the orchestration script globs for matches that name",
+    "C19_nf_written_names_unambiguous": "a file name a module writes is matched by the script's glob of exactly one kind",
+    "C19_script_globs_are_kind_patterns": "the glob primitives of the translated helpers (the patterns the translation matches against the script's text) are exactly the model's pattern per kind at "
+                                          "the model's directory depth (<job>/*/<file>; selected_plate: <iteration>/plate_*/*/<file>), and every kind is globbed for",
+    "C19_nf_publish_dir_is_outdir": "every nextflow/config/*.config that sets publishDir sets it to ${params.outdir} (the --outdir of the script's command line) and every module writes under ${meta.id}: one directory level below the job directory",
+    "C19_nf_excludes_chain": "how --excludes=a,b reaches the policy (C16's batch): next_batch_plate splits params.excludes on the separator the script joins with; it is the tuple element the sub-workflow picks "
+                             "for SELECT_NEXT_PLATE's `excludes` input; the module passes the ids blank-separated after --batch-plate-id, which select_next_plate's own option table declares nargs='+' type=int dest batch_plate_id",
     "C19_model_is_source_examine": "the WHOLE function examine_output_dir_to_determine_current_iteration of /repo's script, re-translated into Gallina on every run, equals the model's examine with "
                                    "fixed = true for every tree and batch size: both filtered + numerically sorted globs, the `continue` on an iteration directory without plate directories, current_plate_idx = 0, "
                                    "the enumerate loop with its two raises and the directory each names, the leaked plate_dir, the next-step arithmetic, both returns",
@@ -167,16 +195,29 @@ ASSUMPTIONS = [
     "sub-workflows as read (which files, which inputs each is computed from); nextflow's own resume cache, work directory and asynchronous publishDir copies are outside the model",
     "file content is abstract (a screen = list of unobserved plate ids; selection = first unobserved plate not excluded); the script itself only reads "
     "n_unobserved_plates and the selected_plate text",
-    "a published file appears atomically (the fake writes a temporary file and renames it)",
+    "kinds run / run-repaired / async: a published file appears atomically (the fake writes a temporary file and renames it).  kinds torn / torn-repaired drop this for the one file "
+    "the script parses: screen_metadata.json may be left holding a prefix of its text; other files are never torn (the script only globs for them / reads selected_plate as text)",
+    "'records the same selection' (clause a) is about the ORCHESTRATION: model and fake compute a step's selection as a function of the content of its input files.  Of the real pipeline this holds "
+    "only if train_model / calculate_scores / select_next_plate are deterministic in their inputs and seed, which is property C18 (whose known findings - Gibbs blocks drawing from the global "
+    "generator - mean that a re-executed step may select another plate than the never-interrupted run would have): C19 depends on C18 here and does not re-establish it",
     "the <name> directory level, the work directory and files the script never globs for are abstracted away",
     "the operator removes exactly the directory named in 'Consider deleting this directory to continue simulation: <dir>' and reruns; on any other error he just reruns",
-    "glob order of plate_*/*/selected_plate is not modelled: the exclude list is compared as a set",
+    "glob order of plate_*/*/selected_plate is not modelled: the exclude list is compared as a set, by the model comparison and by the predicate alike (the pipeline uses it as a set: "
+    "tokenize(',') -> --batch-plate-id -> membership tests)",
+    "selected_plate = -1 (select_next_plate found no eligible plate) is not represented: the fake publishes no selection then and exits non-zero; what REVEAL_PLATE makes of -1 cannot be observed without nextflow",
     "operator model (prospective): the screen file passed to an invocation is a function of the output directory at its start - screen number = number of completed steps "
     "(directories holding screen_metadata.json) div batch size, i.e. a new screen once a whole batch is marked complete, the same screen for a rerun inside a batch; "
     "retrospective: always the same file.  The screens' content is abstract in the model (all list the same plates); the harness's files differ in path and in a field the fake ignores",
     "an invocation ends when run_next_* returns False, raises, or is interrupted; what the process exit status is used for by the operator is not modelled beyond 'rerun'",
 ]
-EXPLANATION = ("Model: Model/Orchestrate.v (calls: attempt/script_run; invocations of main(): call_returns/invocation/op_screen/script_session).  "
+EXPLANATION = ("NEXTFLOW SIDE (C19_nf_*, C19_script_globs_*): harness/nf_reader.py, a fail-closed reader of the declarative parts of the six modules whose outputs the script globs for (process name, "
+               "the prefix line, each output: line, the --output options of the script: block), of publishDir in nextflow/config/*.config and of the excludes chain (tokenize in next_batch_plate, the it[k] picks "
+               "of select_next_batch_plate, input tuple and exclude_flag of select_next_plate), writes Generated/SrcNfOutputs.v on every run; anything outside the accepted shapes is refused (broken obligation).  "
+               "TRUSTED: that reader, fnmatch-style matching with * (Model/NfFiles.glob_match), and that `meta.id` is one path component.  NOT read: which processes each workflow includes (the model's `expected`), "
+               "the nf-core publishDir mode (copy / symlink), nextflow's own semantics.  The fake nextflow publishes under the names the reader finds in the tree under test.  "
+               "TORN MARKERS: Model/Orchestrate.v (last section) extends the tree by the set of directories whose screen_metadata.json exists but cannot be read, examine_t raises there (tfix=0, the script today) "
+               "or treats it as missing (tfix=1, the repair); C19_torn_model_conservative ties it to the model of all other theorems; C19_resume_refuted_torn_marker is the finding, replayed on the real script "
+               "(known finding torn-marker-strands-script).  Model: Model/Orchestrate.v (calls: attempt/script_run; invocations of main(): call_returns/invocation/op_screen/script_session).  "
                "The invocation-level theorems (C19_invocation_*, C19_retro_*, C19_uninterrupted_*) say when main() stops and which operator screen every launch reads; the harness "
                "checks the same two things on the real main() (clauses wrong-operator-screen, invocation-crosses-batch) and compares the invocation log exactly.  "
                "The theorems are proved for the script WITH the one-line repair of examine (model parameter fixed=true) or batch "
@@ -257,6 +298,23 @@ NAME = "exp"
 MODES = ["retrospective", "prospective"]
 
 
+_nf_names = None
+
+
+def nf_names():
+    """{kind: file name the nextflow modules of the tree under test write}, read by harness/nf_reader.py from the modules' output: /
+    script: blocks; the fake publishes under THESE names, so a renamed module output shows up as a script that finds nothing.
+    A tree the reader refuses (the theorems about it are then broken obligations): the names as they were read into the harness."""
+    global _nf_names
+    if _nf_names is None:
+        try:
+            import nf_reader
+            _nf_names = nf_reader.published_names(common.REPO)[0]
+        except Exception:      # noqa: BLE001
+            _nf_names = {}
+    return _nf_names
+
+
 class Crash(BaseException):
     pass
 
@@ -278,6 +336,13 @@ class _Proxy:
 
 _REPAIR_OLD = "        plate_dirs = sorted(plate_dirs, key=dir_sort_key)\n"
 _REPAIR_NEW = _REPAIR_OLD + "        if not plate_dirs:\n            continue\n"
+# the repair of the torn-marker finding: an unreadable marker (or one without the key the script reads) counts as no marker, so
+# examine names the directory as "invalid structure" and the operator removes it
+_TORN_OLD = "        screen_metadata_obj = json.load(f)\n\n    return screen_metadata_obj\n"
+_TORN_NEW = ("        try:\n            screen_metadata_obj = json.load(f)\n        except ValueError:\n            return None\n"
+             "    if not isinstance(screen_metadata_obj, dict) or 'n_unobserved_plates' not in screen_metadata_obj:\n        return None\n"
+             "    return screen_metadata_obj\n")
+_PATCHES = {"repaired": [(_REPAIR_OLD, _REPAIR_NEW)], "torn-repaired": [(_TORN_OLD, _TORN_NEW)]}
 _mods = {}
 _fake_mod = None
 
@@ -287,19 +352,21 @@ def load_script(variant="real", fresh=False):
     restart of the script - every invocation of the differential runs gets one)"""
     if variant in _mods and not fresh:
         return _mods[variant]
-    name = "batchie_orchestrator_c19_" + variant
+    name = "batchie_orchestrator_c19_" + variant.replace("-", "_")
     if variant == "real":
         spec = importlib.util.spec_from_file_location(name, SCRIPT)
         mod = importlib.util.module_from_spec(spec)
         spec.loader.exec_module(mod)
     else:
         src = open(SCRIPT).read()
-        if src.count(_REPAIR_OLD) != 1:
-            _mods[variant] = None
-            return None
+        for old, new in _PATCHES[variant]:
+            if src.count(old) != 1:
+                _mods[variant] = None
+                return None
+            src = src.replace(old, new)
         mod = type(sys)(name)
         mod.__file__ = SCRIPT
-        exec(compile(src.replace(_REPAIR_OLD, _REPAIR_NEW), SCRIPT + "<repaired>", "exec"), mod.__dict__)
+        exec(compile(src, SCRIPT + "<" + variant + ">", "exec"), mod.__dict__)
     mod.logger.disabled = True
     if not fresh:
         _mods[variant] = mod
@@ -345,7 +412,7 @@ def read_plate(pdir):
     meta = rd(6)
     return [opt(scr(0)), int(rd(1) is not None), int(rd(2) is not None), int(rd(3) is not None),
             opt(None if sel is None else int(sel.strip())), opt(scr(5)),
-            opt(None if meta is None else int(json.loads(meta)["n_unobserved_plates"]))]
+            opt(None if meta is None or not marker_readable(os.path.join(d, FILES[6])) else int(json.loads(meta)["n_unobserved_plates"]))]
 
 
 def read_tree(out):
@@ -367,8 +434,22 @@ def read_tree(out):
     return sorted(res)
 
 
-def scan(out):
-    """cheap view of the tree: sorted [[i, [[j, set of published file names]...]]...] (no file is opened)"""
+TORN = FILES[6] + "#torn"
+
+
+def marker_readable(path):
+    """does screen_metadata.json hold what the script reads from it (a JSON object with n_unobserved_plates)?"""
+    try:
+        with open(path) as f:
+            o = json.load(f)
+        return isinstance(o, dict) and "n_unobserved_plates" in o
+    except (OSError, ValueError):
+        return False
+
+
+def scan(out, check=False):
+    """cheap view of the tree: sorted [[i, [[j, set of published file names]...]]...] (no file is opened unless check=True:
+    then a marker file that cannot be read is listed as 'screen_metadata.json#torn' instead)"""
     res = []
     try:
         its = os.listdir(out)
@@ -387,9 +468,15 @@ def scan(out):
                     names = set(os.listdir(os.path.join(p, q, NAME)))
                 except OSError:
                     names = set()
+                if check and FILES[6] in names and not marker_readable(os.path.join(p, q, NAME, FILES[6])):
+                    names = (names - {FILES[6]}) | {TORN}
                 pl.append([int(m2.group(1)), names])
         res.append([int(m.group(1)), sorted(pl, key=lambda t: t[0])])
     return sorted(res, key=lambda t: t[0])
+
+
+def torn_of(sc):
+    return [[i, j] for i, pls in sc for j, names in pls if TORN in names]
 
 
 def write_tree(out, tree):
@@ -436,7 +523,13 @@ class Runner:
         self.events = []     # chronological observations for the property predicate
         self.by = {}
         self.cur_k, self.cur_order, self.cur_logged = FULL, CANON, True
+        self.cur_torn = 0
+        # entries [k, order, 1]: the interruption comes while publication number k-4 is under way (a torn marker, see the fake)
+        self.tearing = any(len(e) > 2 and e[2] for e in self.sched)
         self.invocations = 0
+
+    def scan(self):
+        return scan(self.out, check=self.tearing)
 
     # -- the operator: which screen file an invocation is given, as a function of the output directory
     def op_screen(self):
@@ -444,7 +537,8 @@ class Runner:
         when q batches' worth of steps are complete (Model/Orchestrate.op_screen)"""
         if self.mode != "prospective":
             return 0
-        return len(marked(scan(self.out))) // self.bs
+        sc = self.scan()
+        return (len(marked(sc)) + len(torn_of(sc))) // self.bs      # he counts marker FILES; he does not parse them
 
     def screen_path(self, r):
         p = self.scr_made.get(r)
@@ -478,14 +572,28 @@ class Runner:
 
     def norm(self, a):
         a = str(a)
+        if a.startswith("--excludes="):
+            # the ids come from glob.glob('plate_*/*/selected_plate'), whose order is the file system's; the pipeline uses them as a
+            # set (tokenize(',') -> --batch-plate-id ids -> membership tests in select_next_plate): compared as a set here too
+            ids = a[len("--excludes="):].split(",")
+            a = "--excludes=" + ",".join(sorted(ids, key=lambda x: (0, int(x), "") if re.fullmatch(r"-?\d+", x) else (1, 0, x)))
         if self.scr_dir in a:
             a = self.scr_re.sub(lambda m: "$IN" + m.group(1), a)
         return a.replace(self.out, "$OUT")
 
+    def expected_files(self, i, j):
+        if self.mode == "retrospective":
+            ks = range(7) if (i, j) == (0, 0) else ((2, 3, 4, 5, 6) if j == 0 else (4, 5, 6))
+        else:
+            ks = (2, 3, 4, 6) if j == 0 else (4, 5, 6)
+        return [FILES[k] for k in ks]
+
     def context(self, sc):
         return dict(empty_iters=[i for i, pls in sc if not pls],
+                    marker_incomplete=[[i, j] for i, pls in sc for j, names in pls if FILES[6] in names
+                                       and any(f not in names for f in self.expected_files(i, j))],
                     marker_early=[[i, j] for i, pls in sc for j, names in pls if FILES[6] in names and FILES[4] not in names],
-                    marked=marked(sc))
+                    marked=marked(sc), torn_markers=torn_of(sc))
 
     def emit(self, item):
         self.log.append(item)
@@ -497,7 +605,7 @@ class Runner:
         s = self.step_of_path(path)
         if s is None or not os.path.isdir(path):
             return
-        sc = scan(self.out)
+        sc = self.scan()
         ev = dict(type="delete", who=who, step=list(s), had_marker=s in marked(sc))
         ev.update(self.context(sc))
         self.events.append(ev)
@@ -508,7 +616,8 @@ class Runner:
         if os.path.abspath(path) == self.out:
             if self.pos >= len(self.sched):
                 raise StopRun()
-            self.cur_k, self.cur_order = self.sched[self.pos]
+            self.cur_k, self.cur_order = self.sched[self.pos][:2]
+            self.cur_torn = int(len(self.sched[self.pos]) > 2 and bool(self.sched[self.pos][2]))
             self.pos += 1
             self.cur_logged = False
             return os.makedirs(path, exist_ok=exist_ok)
@@ -534,7 +643,7 @@ class Runner:
         outdir = o.get("--outdir")
         s = self.step_of_path(outdir)
         launch = self.parse_launch(cmd, o)
-        sc = scan(self.out)
+        sc = self.scan()
         inputs = {}
         for key in ("--screen", "--training_screen", "--test_screen"):
             if key in o:
@@ -548,7 +657,8 @@ class Runner:
         ev.update(self.context(sc))
         self.events.append(ev)
         env = {"FAKE_NF_LOG": self.fakelog, "FAKE_NF_ORDER": ",".join(KINDS[k] for k in self.cur_order),
-               "FAKE_NF_CRASH_AFTER": str(p), "FAKE_NF_PYTHON": sys.executable}
+               "FAKE_NF_CRASH_AFTER": str(p), "FAKE_NF_PYTHON": sys.executable,
+               "FAKE_NF_TORN": "1" if self.cur_torn else "", "FAKE_NF_FILES": json.dumps(nf_names())}
         rc = None
         try:
             if self.spawn:
@@ -574,9 +684,9 @@ class Runner:
             rc = e.returncode
             raise
         finally:
-            sc = scan(self.out)
+            sc = self.scan()
             names = dict(((i, j), nm) for i, pls in sc for j, nm in pls).get(s, set())
-            pubs = [k for k in self.cur_order if FILES[k] in names]
+            pubs = [k for k in self.cur_order if FILES[k] in names or (k == 6 and TORN in names)]
             if s is not None:
                 self.by[s] = launch
             self.emit([4, s[0] if s else -1, s[1] if s else -1, launch, pubs, int(rc == 0)])
@@ -654,18 +764,27 @@ class Runner:
                         shutil.rmtree(d)
                         self.emit([0, 1 if "invalid structure" in msg else 2, s[0], s[1]])
                     elif "Could not find test screen" in msg:
+                        self.script_error(e)
                         self.fail(1)
                     else:
                         raise
+                except json.JSONDecodeError as e:
+                    # json.load of a marker file failed inside examine: nothing was touched, no directory is named
+                    ev = dict(type="script-error", error=type(e).__name__, msg=str(e)[:200])
+                    ev.update(self.context(self.scan()))
+                    self.events.append(ev)
+                    self.emit([3, 70])
                 except ValueError as e:
                     if "No thetas or dist_chunks found" not in str(e):
                         raise
+                    self.script_error(e)
                     self.fail(2)
-                except TypeError:
+                except TypeError as e:
+                    self.script_error(e)
                     self.fail(9)
                 except Exception as e:      # noqa: BLE001 - any other exception of the script: it neither continued nor named a directory
                     ev = dict(type="script-error", error=type(e).__name__, msg=str(e)[:200])
-                    ev.update(self.context(scan(self.out)))
+                    ev.update(self.context(self.scan()))
                     self.events.append(ev)
                     self.fail(7)
                 if self.pos == pos0 or self.single:
@@ -676,9 +795,16 @@ class Runner:
         tree = read_tree(self.out)
         self.final = [[i, [[j, pd + [opt(unstamp(self.by.get((i, j))))]] for j, pd in pls]] for i, pls in tree]
         ev = dict(type="end")
-        ev.update(self.context(scan(self.out)))
+        ev.update(self.context(self.scan()))
+        self.torn = sorted(torn_of(scan(self.out, check=True)))
         self.events.append(ev)
         return self
+
+    def script_error(self, e):
+        """the script raised an exception that names no directory (C19_step_safe: never, on a reachable tree)"""
+        ev = dict(type="script-error", error=type(e).__name__, msg=str(e)[:200])
+        ev.update(self.context(self.scan()))
+        self.events.append(ev)
 
     def fail(self, w):
         self.emit([2, 3] if self.cur_k == 3 else [3, w])
@@ -788,7 +914,7 @@ def judge(mode, bs, n, sched, run, cf):
                     if pd[6] and pd[4] != cf["sel"].get((i, j)):
                         fails.append(("selection-differs", "step %s is marked complete with selection %s, uninterrupted run recorded %s"
                                       % ((i, j), pd[4], cf["sel"].get((i, j))), ev))
-            ncrash = sum(1 for k, _ in sched if k < FULL)
+            ncrash = sum(1 for e in sched if e[0] < FULL)
             want = min(n, len(sched) - 3 * ncrash) if mode == "retrospective" else len(sched) - 3 * ncrash
             if len(ev["marked"]) < min(want, cf["n_done"]):
                 fails.append(("did-not-continue", "only %d steps complete after %d calls with %d crashes" % (len(ev["marked"]), len(sched), ncrash), ev))
@@ -814,10 +940,17 @@ def classify(mode, fails):
         # kept apart from the runs in which a marker was published before the selection, so that a run free of the known
         # finding is reported as the counterexample whenever there is one
         return "other:%s:%s%s" % (clause, mode, ":marker-published-early" if ev.get("marker_early") else "")
+    if clause == "script-raised" and ev.get("error") == "JSONDecodeError" and ev.get("torn_markers"):
+        # an interruption DURING the publication of screen_metadata.json leaves a marker json.load cannot read: the script dies in
+        # examine with an exception that names no directory, on every rerun
+        return "torn-marker-strands-script"
     if ev.get("marker_early") and mode == "prospective":
         return "prospective-marker-before-selection"
-    if ev.get("marker_early"):
-        return "marker-before-selection:" + clause
+    if ev.get("marker_incomplete"):
+        # a directory holds the marker while another output of the same step is not (yet) there: only possible when the marker is
+        # not the last file published (asynchronous publishing; in the retrospective / next_plate workflows data dependence alone
+        # would put it last)
+        return "marker-published-before-other-outputs"
     if ev.get("empty_iters") and clause in ("completed-step-deleted", "completed-step-reexecuted"):
         return "empty-iter-dir-reruns-completed-step"
     return "other:%s:%s" % (clause, mode)
@@ -870,11 +1003,12 @@ def single_points(mode, bs, n):
 
 
 def mk_sched(T, crashes, tail=3):
-    """crashes: list of (gap of full entries before it, k, order)"""
+    """crashes: list of (gap of full entries before it, k, order[, torn])"""
     s = []
-    for gap, k, order in crashes:
-        s += [[FULL, CANON]] * gap + [[k, order]]
-    done = sum(g for g, _, _ in crashes)
+    for c in crashes:
+        gap, k, order = c[:3]
+        s += [[FULL, CANON]] * gap + [[k, order] + list(c[3:])]
+    done = sum(c[0] for c in crashes)
     return s + [[FULL, CANON]] * (max(T - done, 0) + tail)
 
 
@@ -943,7 +1077,72 @@ def gen(rng, tier):
             left -= gap
             cr.append((gap, rng.randint(0, 8), rng.choice(orders_for("prospective")[:1] * 3 + orders_for("prospective"))))
         yield dict(kind="run", mode="prospective", bs=bs, n=n, sched=mk_sched(T, cr, tail=2), spawn=False)
-    # orders outside the quantifier (violate data dependence): correspondence only
+    # torn markers: the interruption comes WHILE screen_metadata.json is being published (entry [k, order, 1] with k - 4 = the
+    # marker's position among the files the step publishes in that order); every step of every configuration x every admissible
+    # order, each run twice: the script as it is (kind torn) and with the repair applied in memory (kind torn-repaired: an
+    # unreadable marker counts as no marker), so that anything ELSE that goes wrong around a torn marker is reported on its own
+    torn_ok = load_script("torn-repaired") is not None
+    small = [(m, bs, n) for m in MODES for bs in (1, 2, 3, 4) for n in (1, 2)]
+
+    def marker_pos(m, bs, c, order):
+        j = c % bs
+        if m == "retrospective":
+            exp = range(7) if c == 0 else ((2, 3, 4, 5, 6) if j == 0 else (4, 5, 6))
+        else:
+            exp = (2, 3, 4, 6) if j == 0 else (4, 5, 6)
+        return [x for x in order if x in exp].index(6) + 1
+    for m, bs, n in configs + small:
+        if quick and n >= 5:
+            continue
+        T = total_steps(m, bs, n)
+        for a in range(T):
+            for order in orders_for(m):
+                d = dict(kind="torn", mode=m, bs=bs, n=n, sched=mk_sched(T, [(a, 4 + marker_pos(m, bs, a, order), order, 1)], tail=4), spawn=False)
+                yield d
+                if torn_ok:
+                    yield dict(d, kind="torn-repaired")
+    for _ in range(50 if quick else 800):
+        # a torn marker plus one or two ordinary crashes; and tear flags on publications that are not the marker (no effect)
+        m, bs, n = rng.choice(configs + small)
+        T = total_steps(m, bs, n)
+        cr = []
+        for _ in range(rng.randint(1, 3)):
+            order = rng.choice(orders_for(m))
+            a = rng.randint(0, T - 1)
+            if rng.random() < 0.6:
+                cr.append((a if not cr else rng.randint(0, 2), 4 + marker_pos(m, bs, rng.randint(0, T - 1), order), order, 1))
+            else:
+                cr.append((a if not cr else rng.randint(0, 2), rng.randint(0, 11), order, rng.randint(0, 1)))
+        d = dict(kind="torn", mode=m, bs=bs, n=n, sched=mk_sched(T, cr, tail=4), spawn=False)
+        yield d
+        if torn_ok:
+            yield dict(d, kind="torn-repaired")
+    # one- and two-plate screens (the theorems cover them; batch sizes larger than the number of plates included): all single crash points
+    cnt2 = 0
+    for m, bs, n in small:
+        T = total_steps(m, bs, n)
+        for a, k in single_points(m, bs, n):
+            for oi, order in enumerate(orders_for(m)):
+                if oi >= 1 and k < 4:
+                    continue
+                cnt2 += 1
+                if quick and cnt2 % 3:
+                    continue
+                yield dict(kind="run", mode=m, bs=bs, n=n, sched=mk_sched(T, [(a, k, order)]), spawn=False)
+        if m == "retrospective" or bs <= n:
+            yield dict(kind="crash_free", mode=m, bs=bs, n=n)
+    # retrospective / next_plate: the marker published before advanced_screen.h5 (asynchronous publishing: the small JSON file lands
+    # before the large screen), interrupted between the two - every step of every configuration
+    for m, bs, n in configs + small:
+        T = total_steps(m, bs, n)
+        for a in range(T):
+            if m == "prospective" and a % bs == 0:
+                continue      # the first plate of a prospective batch publishes no advanced screen
+            if quick and n >= 5 and (a + bs) % 2:
+                continue
+            order = [0, 1, 2, 3, 4, 6, 5]
+            yield dict(kind="async", mode=m, bs=bs, n=n, sched=mk_sched(T, [(a, 4 + marker_pos(m, bs, a, order), order)]), spawn=False)
+    # random orders, also ones that violate data dependence (asynchronous publishing); judged like every other run
     for _ in range(60 if quick else 600):
         m, bs, n = rng.choice(configs)
         T = total_steps(m, bs, n)
@@ -1130,28 +1329,42 @@ def cmp_run(m, i):
     return None
 
 
+def cmp_torn(m, i):
+    """model output of op 8: [tree, [torn steps], invocations]"""
+    if isinstance(m, str):
+        return "model driver failure: " + m
+    if isinstance(i, common.ImplError):
+        return "harness could not run the script: %r" % (i,)
+    if sorted(m[1]) != i[1]:
+        return "directories holding an unreadable marker differ: model %s impl %s" % (sorted(m[1]), i[1])
+    return cmp_run([m[0], m[2]], [i[0], i[2]])
+
+
 def run(desc):
     k = desc["kind"]
-    if k in ("run", "run-repaired", "async"):
+    if k in ("run", "run-repaired", "async", "torn", "torn-repaired"):
         mode, bs, n, sched = desc["mode"], desc["bs"], desc["n"], desc["sched"]
-        variant = "repaired" if k == "run-repaired" else "real"
+        variant = {"run-repaired": "repaired", "torn-repaired": "torn-repaired"}.get(k, "real")
+        tearing = k in ("torn", "torn-repaired")
         fixed = 1 if k == "run-repaired" else probed_fixed()
         r = run_schedule(mode, bs, n, sched, spawn=desc.get("spawn", False), variant=variant)
-        impl = [r.final, r.ilog]
+        impl = [r.final, r.torn, r.ilog] if tearing else [r.final, r.ilog]
         pred = None
         sig = None
         feats = [k, mode, "bs=%d" % bs]
         crashes = [e for e in sched if e[0] < FULL]
         feats += ["crashes=%d" % len(crashes)] if crashes else ["trivial"]
-        for kk, _ in crashes:
+        for kk in [e[0] for e in crashes]:
             feats.append({0: "crash@before-rmtree", 1: "crash@after-rmtree", 2: "crash@between-makedirs-levels", 3: "crash@before-launch"}.get(kk, "crash@pipeline"))
-        if any(o != CANON for _, o in sched):
+        if any(e[1] != CANON for e in sched):
             feats.append("non-canonical-order")
+        if r.tearing:
+            feats.append("marker-torn" if any(ev.get("torn_markers") for ev in r.events) else "tear-flag-without-effect")
         if desc.get("spawn"):
             feats.append("spawned-fake")
         if any(g[0] == 0 for g in r.log):
             feats.append("operator-removed-dir")
-        if k != "async":
+        if True:      # async orders are judged like every other run (the statement does not restrict the publication order)
             cf = crash_free_ref(mode, bs, n, len(sched), variant)
             fails = judge(mode, bs, n, sched, r, cf)
             if fails:
@@ -1163,6 +1376,9 @@ def run(desc):
             feats.append("invocations>=2")
         if len({rec[0] for rec in r.ilog}) > 1:
             feats.append("operator-screens>=2")
+        if tearing:
+            wire = [8, int(k == "torn-repaired"), MODES.index(mode), fixed, bs, n, [[e[0], e[1], int(len(e) > 2 and bool(e[2]))] for e in sched]]
+            return dict(wire=wire, impl=impl, pred=pred, features=feats, cmp=cmp_torn, sig=sig)
         wire = [4, MODES.index(mode), fixed, bs, n, [], [[kk, o] for kk, o in sched]]
         return dict(wire=wire, impl=impl, pred=pred, features=feats, cmp=cmp_run, sig=sig)
     if k == "crash_free":
@@ -1372,7 +1588,7 @@ def signature(desc, res):
 
 
 def shrink(desc):
-    if desc.get("kind") not in ("run", "run-repaired"):
+    if desc.get("kind") not in ("run", "run-repaired", "torn", "torn-repaired"):
         return
     base = run(desc).get("sig")
 
@@ -1383,10 +1599,11 @@ def shrink(desc):
             return False
     sched = desc["sched"]
     cands = []
-    for t, (k, o) in enumerate(sched):
+    for t, e in enumerate(sched):
+        k, o = e[0], e[1]
         if k < FULL:
             cands.append(dict(desc, sched=sched[:t] + [[FULL, CANON]] + sched[t + 1:]))
-        if o != CANON:
+        if o != CANON and len(e) == 2:
             cands.append(dict(desc, sched=sched[:t] + [[k, CANON]] + sched[t + 1:]))
     if len(sched) > 1:
         cands.append(dict(desc, sched=sched[:-1]))
